@@ -2,6 +2,8 @@ import LlgoVerif.Util
 import LlgoVerif.Model.CAbi
 import LlgoVerif.Spec.SysV
 import LlgoVerif.Spec.AAPCS64
+import LlgoVerif.Model.CAbiCall
+import LlgoVerif.Model.CgoStr
 /-! Line-protocol driver for C09. One request per line, one answer per line.
 
     Types: `b h w q p f d` = i8 i16 i32 i64 ptr float double; `{..}` struct; `[N T]` array; `v` = no result.
@@ -17,6 +19,19 @@ import LlgoVerif.Spec.AAPCS64
     spec64 T              AAPCS64 class: `none` | `memory` | `gpr N` | `hfa N float|double`
     judge64 arg|ret T <kind>   is the given arm64 pass kind what AAPCS64 prescribes?
     cstr DEST LEN HEX     CStrCopy into a dirty memory of LEN bytes at DEST, then StringFromCStr: `ok HEX` | `oob`
+    callsite nextstore=0|1 argload=0|1
+                          model of the AttrPointer branches of transformCallInstr: `sret=temp|dest byval=temp|source`
+    inplace DST N P0 .. P(N-1)
+                          `*DST = f(p)` with p = 100 holding cells 1..N and f writing result cell j := p[Pj] in order, cell by
+                          cell (model of a C callee filling its result object while reading its input):
+                          `temp=<cells> dest=<cells> spec=<cells> safe_dest=0|1`  (cells of DST afterwards under the
+                          current lowering, under 'destination as sret', and by the Go-level meaning)
+    cgo gostrn|gostr|gobytes|zstrn|zstr copy|alias HEXBUF OFF N HEXSCRIBBLE
+                          C buffer HEXBUF (+ NUL) at address 16; convert at OFF (length N; ignored by gostr); then C overwrites
+                          its buffer with HEXSCRIBBLE: `now=HEX later=HEX`
+    cgo cstring|cbytes HEX [guard]
+                          Go value -> C copy -> overwrite the Go source with 0x5a..: `c=HEX` (the C copy afterwards); cstring
+                          continues with GoString of the copy, then overwrites the C copy: `c=HEX back=HEX`
 -/
 open LlgoVerif LlgoVerif.Util LlgoVerif.CAbi LlgoVerif.SysV
 
@@ -178,6 +193,83 @@ def placeLine (i : Placement) (s : Sig) : String :=
   let p := place s
   s!"impl={placementName i} spec={placementName p} eq={b01 (decide (i = p))} fits={b01 (fitsInRegs s)} nosplit={b01 (noSplit s)} natural={b01 (decide ((∀ t ∈ s.ret, t.view.natural) ∧ ∀ t ∈ s.params, t.view.natural))} wf={b01 (decide ((∀ t ∈ s.ret, t.wf = true) ∧ ∀ t ∈ s.params, t.wf = true))}"
 
+
+/-! ### call sites and cgo helpers -/
+
+def natsStr (l : List Nat) : String := ",".intercalate (l.map toString)
+
+def bytesOfNats (l : List Nat) : List UInt8 := l.map UInt8.ofNat
+def natsOfBytes (l : List UInt8) : List Nat := l.map UInt8.toNat
+
+/-- the callee of `inplace`: result cell `j` := `p[perm j]`, one after the other -/
+def permProg : List Nat → Nat → CAbiCall.Prog
+  | [], _ => .done
+  | pj :: r, j => .seq (.load 1 (.ind 0 pj)) (.seq (.store (.priv 0 j) 1) (permProg r (j + 1)))
+
+def inplaceLine (dst : Nat) (perm : List Nat) : String :=
+  let n := perm.length
+  let m : CAbiCall.Cells := fun a => if 100 ≤ a ∧ a < 100 + n then a - 99 else if 200 ≤ a ∧ a < 200 + n then 1000 + (a - 200) else 0
+  let c : CAbiCall.CallSite := ⟨n, [.word 100], dst⟩
+  let frame : CAbiCall.Frame := fun k => 1000 + 100 * k
+  let f := permProg perm 0
+  let rd (mm : CAbiCall.Cells) := CAbiCall.readCells mm dst n
+  let t := rd (CAbiCall.implCall .temp .temp frame f c m)
+  let d := rd (CAbiCall.implCall .dest .temp frame f c m)
+  let sp := rd (CAbiCall.specCall (fun off => m (frame 0 + off)) f c m)
+  let safe := CAbiCall.safeB (CAbiCall.placement .dest frame c) f (CAbiCall.initA (fun off => m (dst + off)) c m)
+  s!"temp={natsStr t} dest={natsStr d} spec={natsStr sp} safe_dest={b01 safe}"
+
+def parseCopyCfg (s : String) : Option CgoStr.CopyCfg :=
+  if s = "copy" then some .copy else if s = "alias" then some .alias else none
+
+/-- C memory: `buf ++ [0]` at address 16, allocation frontier right behind it -/
+def cgoHeap (buf : List Nat) : CgoStr.Heap :=
+  ⟨CAbiCall.writeCells (fun _ => 0xAA) 16 (buf ++ [0]), 16 + buf.length + 1⟩
+
+def scribbleWrites (scr : List Nat) : List (Nat × Nat) := (List.range scr.length).zip scr |>.map fun (i, v) => (16 + i, v)
+
+def cgoLine (op : String) (cfg : CgoStr.CopyCfg) (buf : List Nat) (off n : Nat) (scr : List Nat) : String :=
+  let h0 := cgoHeap buf
+  let res : Option (Nat × Nat × CgoStr.Heap) :=
+    if op = "gostrn" ∨ op = "zstrn" then      -- `zstrn` / `zstr`: z_string.go StringFrom / StringFromCStr (alloc + memcpy: the same model)
+      let r := CgoStr.goStringN cfg h0 (16 + off) n
+      some (r.1.data, r.1.len, r.2)
+    else if op = "gostr" ∨ op = "zstr" then
+      match CgoStr.goString cfg h0 (16 + off) with
+      | some r => some (r.1.data, r.1.len, r.2)
+      | none => none
+    else if op = "gobytes" then
+      let r := CgoStr.goBytes cfg h0 (16 + off) n
+      some (r.1.data, r.1.len, r.2)
+    else none
+  match res with
+  | none => "bad-op"
+  | some (d, l, h1) =>
+    let now := CAbiCall.readCells h1.mem d l
+    let later := CAbiCall.readCells (CgoStr.applyWrites h1.mem (scribbleWrites scr)) d l
+    s!"now={hex (bytesOfNats now)} later={hex (bytesOfNats later)}"
+
+def cgoToC (op : String) (v : List Nat) (guard : Bool := false) : String :=
+  -- the Go value lives at address 16
+  let h0 : CgoStr.Heap := ⟨CAbiCall.writeCells (fun _ => 0xAA) 16 v, 16 + v.length⟩
+  let goScribble : List (Nat × Nat) := (List.range v.length).map fun i => (16 + i, 0x5a)
+  if op = "cbytes" then
+    match CgoStr.cBytes guard h0 ⟨16, v.length, v.length⟩ with
+    | none => "panic"
+    | some r =>
+      let c := CAbiCall.readCells (CgoStr.applyWrites r.2.mem goScribble) r.1 v.length
+      s!"c={hex (bytesOfNats c)}"
+  else
+    let r := CgoStr.cString h0 ⟨16, v.length⟩
+    let m1 := CgoStr.applyWrites r.2.mem goScribble
+    let c := CAbiCall.readCells m1 r.1 v.length
+    match CgoStr.goString .copy ⟨m1, r.2.brk⟩ r.1 with
+    | none => s!"c={hex (bytesOfNats c)} back=oob"
+    | some g =>
+      let cScribble : List (Nat × Nat) := (List.range (v.length + 1)).map fun i => (r.1 + i, 0x5a)
+      let back := CAbiCall.readCells (CgoStr.applyWrites g.2.mem cScribble) g.1.data g.1.len
+      s!"c={hex (bytesOfNats c)} back={hex (bytesOfNats back)}"
+
 def handle (line : String) : String :=
   match fields line with
   | ["cls", t] => match parseType t with | some t => clsLine t false | none => "bad-op"
@@ -211,6 +303,27 @@ def handle (line : String) : String :=
   | "placelegacy" :: ws =>
     match parseSig ws with
     | some s => placeLine (implPlaceC classifyLegacyV s) s
+    | none => "bad-op"
+  | ["callsite", u, a] =>
+    let use : CAbiCall.ResultUse := ⟨u = "nextstore=1"⟩
+    let ad : CAbiCall.ArgDef := ⟨a = "argload=1"⟩
+    let sl := match CAbiCall.lowerRet .temp use with | .temp => "temp" | .dest => "dest"
+    let bs := match CAbiCall.lowerByval .copy ad with | .temp => "temp" | .source => "source"
+    s!"sret={sl} byval={bs}"
+  | "inplace" :: dst :: _n :: perm => inplaceLine dst.toNat! (perm.map String.toNat!)
+  | ["cgo", op, cfg, hb, off, n, hs] =>
+    match parseCopyCfg cfg, unhex hb, unhex hs with
+    | some cfg, some b, some sc => cgoLine op cfg (natsOfBytes b) off.toNat! n.toNat! (natsOfBytes sc)
+    | _, _, _ => "bad-op"
+  | ["cgo", op, hv] =>
+    if op = "cstring" ∨ op = "cbytes" then
+      match unhex hv with
+      | some v => cgoToC op (natsOfBytes v)
+      | none => "bad-op"
+    else "bad-op"
+  | ["cgo", "cbytes", hv, g] =>
+    match unhex hv with
+    | some v => cgoToC "cbytes" (natsOfBytes v) (g = "guard")
     | none => "bad-op"
   | ["cstr", d, n, h] =>
     match unhex h with
